@@ -19,6 +19,7 @@ EXPLANATION = (
 EXPLANATION += ' Added after the seeded-change rounds: ' + 'D4 also: a right child of parallel_scan gets a body of its own depending on the steal status AND on the identity parent->left_sum == own body; D6: every public overload of parallel_reduce / parallel_deterministic_reduce / parallel_scan / parallel_sort dispatches to the same task class as its siblings and passes every argument on.'
 EXPLANATION += ' Added in the third session (round-3 seeds and the findings they led to): ' + 'D3 also: the partition types parallel_deterministic_reduce is instantiated with do not consult the number of threads (violated by static_partitioner: known finding); D4 also: a scan leaf publishes its summary slot only after its body ran over the leaf.'
 EXPLANATION += ' Added in the fourth round of seeded changes: ' + 'D7: the range pool ring rule of C05-D7 (the reduction shares the pool).'
+EXPLANATION += ' Added in the fifth round: ' + 'D2 also: the zombie pairing of C03-D4 (shared); the lazy-split guard follows the split into a helper of the tree node.'
 ASSUMPTIONS = ['clang and g++ agree on overload resolution for the witness programs', 'std::iter_swap / std::sort permute']
 ND = ['equality with the sequential fold', 'bit-identical floating-point results', 'sortedness of the output',
       'pre-sortedness probe pair coverage', 'scan prefix values']
